@@ -105,7 +105,6 @@ func runC09(c *core.Ctx) {
 	c.Decide(minName == "TypeIDNull", "ABS1", "octosql.TypeIDNull is the smallest TypeID", cmp.Decl.Pos(), len(ids), "TypeIDNull = min", "smallest TypeID is "+minName+": NULL no longer sorts first")
 
 	// --- primitive arms
-	type prim struct{ tid, field string }
 	prims := []prim{{"TypeIDInt", "Int"}, {"TypeIDFloat", "Float"}, {"TypeIDString", "Str"}, {"TypeIDTime", "Time"}, {"TypeIDDuration", "Duration"}}
 	for _, pr := range prims {
 		tv := absint.Int(ids[pr.tid])
@@ -232,26 +231,7 @@ func runC09(c *core.Ctx) {
 			c.Decide(ok, "ABS1", "octosql.Value.Compare/TypeIDNull", cmp.Decl.Pos(), len(outs), "NULL vs NULL ⇒ 0", why)
 		}
 	}
-	// --- list-like arms: lexicographic order
-	for _, arm := range []prim{{"TypeIDList", "List"}, {"TypeIDStruct", "Struct"}, {"TypeIDTuple", "Tuple"}} {
-		tv := absint.Int(ids[arm.tid])
-		a, b := recvName+"."+arm.field, argName+"."+arm.field
-		for _, lenRel := range []absint.Rel{absint.LT, absint.EQ, absint.GT} {
-			key := "octosql.Value.Compare/" + arm.tid + "/len " + string(lenRel)
-			outs, err := lexRun(p, cmp, typeIDHook(map[string]absint.Val{recvName: tv, argName: tv}), a, b, lenRel, "octosql.Value.Compare")
-			if err != nil {
-				c.Unknown("ABS1L", key, cmp.Decl.Pos(), err.Error())
-				continue
-			}
-			ok, why := lexCheck(outs, func(o *absint.Outcome) (int64, bool) {
-				if len(o.Values) != 1 {
-					return 0, false
-				}
-				return absint.AsInt(o.Values[0])
-			}, map[string]int64{"endA": -1, "endB": 1, "lt": -1, "gt": 1}, 0)
-			c.Decide(ok, "ABS1L", key, cmp.Decl.Pos(), len(outs), fmt.Sprintf("%d paths agree with the lexicographic reference", len(outs)), why)
-		}
-	}
+	checkCompareListArms(c)
 
 	checkEqual(c, ids)
 	checkHash(c, ids)
@@ -427,3 +407,40 @@ func lexCheck(outs []*absint.Outcome, result func(*absint.Outcome) (int64, bool)
 }
 
 var _ = types.Universe
+
+type prim struct{ tid, field string }
+
+// checkCompareListArms (ABS1L): the List/Struct/Tuple arms of Value.Compare are the lexicographic order and never
+// compare an element past the end of either sequence (shared by C09 and, for the crash, C07).
+func checkCompareListArms(c *core.Ctx) {
+	p := c.Prog
+	ids := typeIDs(p)
+	cmp := p.Func("octosql", "Value.Compare")
+	if cmp == nil {
+		c.Unknown("ABS1L", "octosql.Value.Compare", 0, "anchor not found")
+		return
+	}
+	c.SawFunc("octosql.Value.Compare")
+	recvName := cmp.Decl.Recv.List[0].Names[0].Name
+	argName := cmp.Decl.Type.Params.List[0].Names[0].Name
+	// --- list-like arms: lexicographic order
+	for _, arm := range []prim{{"TypeIDList", "List"}, {"TypeIDStruct", "Struct"}, {"TypeIDTuple", "Tuple"}} {
+		tv := absint.Int(ids[arm.tid])
+		a, b := recvName+"."+arm.field, argName+"."+arm.field
+		for _, lenRel := range []absint.Rel{absint.LT, absint.EQ, absint.GT} {
+			key := "octosql.Value.Compare/" + arm.tid + "/len " + string(lenRel)
+			outs, err := lexRun(p, cmp, typeIDHook(map[string]absint.Val{recvName: tv, argName: tv}), a, b, lenRel, "octosql.Value.Compare")
+			if err != nil {
+				c.Unknown("ABS1L", key, cmp.Decl.Pos(), err.Error())
+				continue
+			}
+			ok, why := lexCheck(outs, func(o *absint.Outcome) (int64, bool) {
+				if len(o.Values) != 1 {
+					return 0, false
+				}
+				return absint.AsInt(o.Values[0])
+			}, map[string]int64{"endA": -1, "endB": 1, "lt": -1, "gt": 1}, 0)
+			c.Decide(ok, "ABS1L", key, cmp.Decl.Pos(), len(outs), fmt.Sprintf("%d paths agree with the lexicographic reference", len(outs)), why)
+		}
+	}
+}
